@@ -280,6 +280,25 @@ namespace jsoncons {
 
 #define JSONCONS_REPEAT8(x)  { x x x x x x x x }
 
+
+// Verification hook (off unless JSONCONS_VERIF is defined): marks the dynamic extent of the
+// stack-safe destruction loops (flatten_and_destroy), which allocate a work list by design,
+// so that an allocation-failure injector can leave allocations made by destructors alone.
+#if defined(JSONCONS_VERIF)
+#define JSONCONS_VERIF_HAS_DESTROY_SCOPE 1
+namespace jsoncons { namespace verif {
+    inline int& destroy_depth() noexcept { static thread_local int depth = 0; return depth; }
+    struct destroy_scope
+    {
+        destroy_scope() noexcept { ++destroy_depth(); }
+        ~destroy_scope() noexcept { --destroy_depth(); }
+    };
+}}
+#define JSONCONS_VERIF_DESTROY_SCOPE ::jsoncons::verif::destroy_scope jsoncons_verif_destroy_scope_guard_
+#else
+#define JSONCONS_VERIF_DESTROY_SCOPE
+#endif
+
 #endif // JSONCONS_CONFIG_JSONCONS_CONFIG_HPP
 
 
